@@ -372,7 +372,7 @@ def _check_special(case):
              '       Second paragraph `missing_dir_second`.\n\n    .. note::\n\n       An admonition `missing_dir_note`.\n\n    .. deprecated:: 2.0\n        Use `missing_dir_dep` instead.\n    """\n')
     # a consolidated field written as a definition list (one item per parameter): a problem in a later item is reported at that item
     consol = (pad + 'class KC:\n    "doc"\n    def f(self, alpha, beta):\n        """\n        Summary of f.\n\n        :Parameters:\n            `alpha`\n                the first one,\n'
-              '                on two lines\n            `beta`\n                the second one\n            `gamma_ghost`\n                not a parameter of f\n'
+              '                on two lines\n            `beta` : `missing_classifier_type`\n                the second one\n            `gamma_ghost`\n                not a parameter of f\n'
               '            `delta_ghost`\n                not a parameter either\n\n        :returns: nothing\n        """\n')
     files = {'__init__.py': '', 'props.py': props, 'base.py': base, 'derived.py': derived, 'user.py': user, 'odd.py': odd,
              **({} if ep else {'direc.py': direc, 'consol.py': consol}),
@@ -418,6 +418,7 @@ def _check_special(case):
             expect('missing_dir_note', 'direc.py', direc, 'missing_dir_note', 'note')
             expect('missing_dir_dep', 'direc.py', direc, 'missing_dir_dep', 'deprecated')
             expect('"gamma_ghost"', 'consol.py', consol, '`gamma_ghost`', 'consolidated field, third item')
+            expect('missing_classifier_type', 'consol.py', consol, 'missing_classifier_type', 'consolidated field, type of the second item')
             expect('"delta_ghost"', 'consol.py', consol, '`delta_ghost`', 'consolidated field, fourth item')
         if ep:      # (docutils counts these characters as line ends itself)
             expect('missing_after_breaks', 'odd.py', odd, 'missing_after_breaks', 'after line separator characters')
@@ -429,6 +430,44 @@ def _check_special(case):
         return fails or None
     finally:
         shutil.rmtree(d, ignore_errors=True)
+
+
+def _ptype_cases(tier, seed):
+    for fmt in ('epytext', 'restructuredtext'):
+        for kind in ('function', 'method'):
+            for k in ((0, 3) if tier == 'quick' else (0, 1, 3, 7)):
+                yield {'fmt': fmt, 'kind': kind, 'k': k, 'ptypes': True}
+
+
+def _check_ptypes(case):
+    """--process-types: a type field whose type expression is malformed is reported at the line of that field"""
+    ep = case['fmt'] == 'epytext'
+    ind = '    ' if case['kind'] == 'function' else '        '
+    head = 'def g(x, y):\n' if case['kind'] == 'function' else 'class K:\n    "doc"\n    def g(self, x, y):\n'
+    f = (lambda t, a, b: f'@{t} {a}: {b}') if ep else (lambda t, a, b: f':{t} {a}: {b}')
+    body = ['"""', 'Summary.', '', 'Second paragraph,', 'on two lines.', '', f('param', 'x', 'the x'), f('type', 'x', 'list of (int'), f('param', 'y', 'the y'),
+            f('type', 'y', 'dict[str'), '"""']
+    src = '\n' * case['k'] + head + ''.join(ind + l + '\n' if l else '\n' for l in body)
+    rc, out = _run_project(src, case['fmt'], extra=('--process-types',))
+    fails = []
+    for frag, needle in (('unbalanced parenthesis', 'list of (int'), ('unbalanced square braces', 'dict[str')):
+        want = _line_of(src, needle)
+        hits = [l for l in out.splitlines() if frag in l]
+        if not hits:
+            fails.append({'observed': f'no message containing {frag!r}; output: {out[-300:]!r}', 'required': 'the problem is reported', 'class': 'ptype-missing'})
+            continue
+        m = re.match(r'(.*?):(\d+|\?\?\?): ', hits[0])
+        if not m or not m.group(1).endswith('mod.py'):
+            fails.append({'observed': f'reported as {hits[0][:140]!r}', 'required': 'mod.py:<line>: <message>', 'class': 'ptype-file'})
+        elif m.group(2) != str(want):
+            # (witness of KF-C16-processtypes-warning-line: exactly one line below the field)
+            below = m.group(2) == str(want + 1)
+            fails.append({'observed': f'{frag!r} reported at line {m.group(2)} for {case}', 'required': f'line {want} (the field holding {needle!r})',
+                          'class': 'ptype-line' + ('+one-below' if below else ''), 'ptype_one_below': bool(below)})
+    if isinstance(rc, int) and rc != 2 and not fails:
+        # (a type expression that cannot be parsed is a recoverable warning: the docstring itself parsed)
+        pass
+    return fails or None
 
 
 HARNESS = {
@@ -449,6 +488,8 @@ HARNESS = {
         'bound': '2 formats x 3 planted problems x 5 layouts x 4 kinds x 2 (4) vertical offsets, each a real pydoctor run'},
     'pydoctor/epydoc/markup/restructuredtext.py:_SplitFieldsTranslator': {'cases': _block_cases, 'check': _check_block,
         'bound': '8 multi-line constructs (consolidated fields as definition/bullet lists, :param:/@param fields, paragraphs, list items, google/numpy sections) x 2 offsets x {function, method}'},
+    'pydoctor/epydoc/markup/__init__.py:processtypes': {'cases': _ptype_cases, 'check': _check_ptypes,
+        'bound': 'two malformed type expressions in @type / :type: fields under --process-types; 2 formats x {function, method} x 2 (4) vertical offsets, real runs'},
     f'{D}:main': {'cases': _exit_cases, 'check': _check_exit, 'bound': '4 problem kinds x {-W, no -W}, real runs'},
     f'{M}:Documentable.description': {'cases': _moved_cases, 'check': _check_moved,
         'bound': 'a re-exported class and function with unresolvable links, and type fields with unresolvable names under --process-types; '
